@@ -235,6 +235,38 @@ func (k *c11) runCLI(c *core.Ctx, i int) {
 	r := c.Rng(i, "cli")
 	dir := c.CaseDir(i)
 	defer os.RemoveAll(dir)
+	// the same journal with its blocks (opens, two transactions, the late price) in a random
+	// order of appearance: the window is a matter of dates, not of where a directive stands
+	blocks := strings.Split(strings.TrimSuffix(c11Journal, "\n"), "\n\n")
+	c11Last := c11Last
+	if r.Intn(2) == 0 {
+		// a transaction after the late price: the window then ends with a transaction
+		blocks = append(blocks, "2020-12-05 \"c\"\nAssets:Bank Expenses:Food 1 CHF")
+		c11Last = cal.FromYMD(2020, 12, 5)
+	}
+	switch r.Intn(4) {
+	case 0: // as written: chronological
+	case 1: // newest first
+		for a, b := 0, len(blocks)-1; a < b; a, b = a+1, b-1 {
+			blocks[a], blocks[b] = blocks[b], blocks[a]
+		}
+	case 2: // prices first, then the transactions newest first, the opens last
+		var prices, rest []string
+		for _, b := range blocks {
+			if strings.Contains(b, " price ") {
+				prices = append(prices, b)
+			} else {
+				rest = append(rest, b)
+			}
+		}
+		for a, b := 0, len(rest)-1; a < b; a, b = a+1, b-1 {
+			rest[a], rest[b] = rest[b], rest[a]
+		}
+		blocks = append(prices, rest...)
+	default:
+		r.Shuffle(len(blocks), func(a, b int) { blocks[a], blocks[b] = blocks[b], blocks[a] })
+	}
+	c11Journal := strings.Join(blocks, "\n\n") + "\n"
 	writeFile(dir, "j.knut", c11Journal)
 	for n := 0; n < k.cliPer; n++ {
 		var f, t cal.Day
